@@ -27,7 +27,9 @@ FMonClauses(m, ev) ==
          << <<"ret-inside-call", m.phase = "busy">>,
             <<"write-applied-to-primary", m.kind = "write" => m.next = 2>>,
             <<"read-returns-first-answer", m.kind # "write" => ev.src = m.answered>>,
-            <<"read-miss-only-after-all-caches", (m.kind # "write" /\ m.answered = 0) => m.next = m.n + 1>> >>
+            <<"read-miss-only-after-all-caches", (m.kind # "write" /\ m.answered = 0) => m.next = m.n + 1>>,
+            (* a read no cache answered returns nothing -- in particular nothing an earlier caller put into an earlier result *)
+            <<"read-miss-returns-nothing", (m.kind # "write" /\ m.answered = 0 /\ ev.src = 0) => ev.empty>> >>
     [] OTHER -> << <<"known-event", FALSE>> >>
 
 FMonEffect(m, ev) ==
